@@ -294,7 +294,7 @@ var c14Reasoned = map[string]string{
 }
 
 func c14(c *core.Ctx) map[string]interface{} {
-	c.Explanation = "Static obligation list for totality of the NGAP/APER decoder (C14). Decided: (R0.nilglobal) no never-initialised global is dereferenced; (R14.guard) every index, slice, division, type assertion and allocation site in the functions of packages aper and ngap reachable from ngap.Decoder / UnmarshalWithParams is either proved in range by a recognised dominating guard (i < len(base); hi <= len(base) with lo a summand of hi; prefix slice after HasPrefix) or is one of the named reasoned exceptions whose argument is recorded - any other site, including a site whose expression or guard was changed, is reported as not provably in range; (R14.shift) no shift in the decode path has a count of signed type that is not provably non-negative (a negative shift count panics); (R14.zero) GetBitString returns before indexing when asked for zero bits and when more bits are requested than remain; (R14.cursor) the decoder cursor byteOffset is advanced only by amounts that a dominating guard compared with len(bytes), by one octet after an explicit bounds test, or by bitCarry (which moves whole octets already accounted in bitsOffset), and getBitsValue/getBitString reject reads beyond the remaining bits before moving the cursor; (R14.loop) every `for {}` fragment loop advances the cursor on each way back to its head and is left unless the length determinant announced another fragment; (R14.alloc) reflect.MakeSlice is sized by a constrained count (<= 16 bits) or one octet; (R14.rec) recursion follows the acyclic schema (R4.acyclic) and open-type sub-buffers are strict sub-slices; (R14.nopanic) no panic/log.Fatal/os.Exit in the decoder; (R14.reflect) every value boxed for the reflection-based trace helpers (perBitLog and whatever else hands an interface parameter to reflect.ValueOf/TypeOf) has a static type for which each reflect.Value method the helper reaches - with its Kind() tests folded for that type - is defined. NOT decided: panics inside reflect for reasons other than those enumerated; actual time and memory figures."
+	c.Explanation = "Static obligation list for totality of the NGAP/APER decoder (C14). Decided: (R0.nilglobal) no never-initialised global is dereferenced; (R14.guard) every index, slice, division, type assertion and allocation site in the functions of packages aper and ngap reachable from ngap.Decoder / UnmarshalWithParams is either proved in range by a recognised dominating guard (i < len(base); hi <= len(base) with lo a summand of hi; prefix slice after HasPrefix) or is one of the named reasoned exceptions whose argument is recorded - any other site, including a site whose expression or guard was changed, is reported as not provably in range; (R14.shift) no shift in the decode path has a count of signed type that is not provably non-negative (a negative shift count panics); (R14.zero) GetBitString returns before indexing when asked for zero bits and when more bits are requested than remain; (R14.cursor) the decoder cursor byteOffset is advanced only by amounts that a dominating guard compared with len(bytes), by one octet after an explicit bounds test, or by bitCarry (which moves whole octets already accounted in bitsOffset), and getBitsValue/getBitString reject reads beyond the remaining bits before moving the cursor; (R14.loop) every `for {}` fragment loop advances the cursor on each way back to its head and is left unless the length determinant announced another fragment; (R14.alloc) reflect.MakeSlice is sized by a constrained count (<= 16 bits) or one octet; (R14.rec) recursion follows the acyclic schema (R4.acyclic) and open-type sub-buffers are strict sub-slices; (R14.nopanic) no panic/log.Fatal/os.Exit in the decoder; (R14.reflect) every value boxed for the reflection-based trace helpers (perBitLog and whatever else hands an interface parameter to reflect.ValueOf/TypeOf) has a static type for which each reflect.Value method the helper reaches - with its Kind() tests folded for that type - is defined. (R14.nilptr) the optional constraints of a field (the pointer fields of fieldParameters, nil when the tag does not give them) are dereferenced in the decoder only on the non-nil side of a nil test of the same field (dominator tree). NOT decided: panics inside reflect for reasons other than those enumerated; actual time and memory figures."
 	c.Assumptions = []string{"reflect.Value.Set*/Field(i) do not panic for exported fields of exported struct types with i < NumField (R3.tag checks exportedness)", "the reasoned exceptions were read and argued by hand; each is tied to the exact expression"}
 	r0nilglobal(c, ngapEntries(c)...)
 	r14guard(c)
